@@ -185,7 +185,7 @@ def c_nm(kind, name, bad_exc):
 
 
 def c_sop(o, bad_exc="ValueError"):
-    if o["op"] in ("BreakDb", "RepairDb"):
+    if o["op"] in ("BreakDb", "RepairDb", "UserAst"):
         return "(SOp UserFileOp)"
     if o["op"] == "AddImport":
         return "(SOp (AddImport %s))" % cm.cN(NAME_ID["zz_reg"])
@@ -211,8 +211,9 @@ def c_env(e, variant):
 
 
 def c_io(e, variant):
-    return "(mkIo %s %s %s %s %s)" % (cm.cbool(bool(e.get("stdout_proxy"))), cm.cbool(e["prompts_class"]),
-                                      cm.cbool(e["pt_cli"]), cm.cbool(variant["f30"]), cm.cbool(variant["f35"]))
+    return "(mkIo %s %s %s %s %s %s)" % (cm.cbool(bool(e.get("stdout_proxy"))), cm.cbool(e["prompts_class"]),
+                                         cm.cbool(e["pt_cli"]), cm.cbool(variant["f30"]), cm.cbool(variant["f35"]),
+                                         cm.cbool(e.get("stderr_closed", False)))
 
 
 NXT = 1000
@@ -273,7 +274,7 @@ def model_expr(case, impl, variant):
     ops = [with_natural(o, ent, case) for o, ent in zip(case["ops"], impl["trace"][1:])]
     slots = cm.clist([cm.cpair(j, c_val(v)) for j, v in zip(JPS, s0["slots"]) if v != "U"])
     return "run_session %s %s %s %s %s %s %s %s %s" % (
-        c_env(impl["env"], variant), c_io(impl["env"], variant), slots,
+        c_env(impl["env"], variant), c_io(dict(impl["env"], stderr_closed=(case.get("stdio") == "err:closed")), variant), slots,
         cm.clist([cm.cN(x) for x in s0["ast"]]), cm.clist([cm.cN(x) for x in s0["cleanup"]]),
         cm.clist([cm.cN(x) for x in s0["line"]]), cm.cbool(s0["has_shell"]), cm.cN(NXT),
         cm.clist([c_sop(o, case.get("bad_exc", "ValueError")) for o in ops]))
@@ -311,6 +312,11 @@ def masked_slots(slots, shell, rn):
     return [canon_val(v, rn) for v in slots] if shell else ["-"] * 14 + [canon_val(v, rn) for v in slots[14:]]
 
 
+def without_user(snap):
+    """ip.ast_transformers without the transformers the user registered (operation UserAst)"""
+    return [x for x, u in zip(snap["ast"], snap.get("ast_user", [False] * len(snap["ast"]))) if not u]
+
+
 def canon_impl(impl, case=None):
     rn = Renamer()
     out = []
@@ -323,6 +329,7 @@ def canon_impl(impl, case=None):
             names_bound |= {n for n in c.get("ns_added", []) if n in NAME_ID}
             names_bound -= set(c.get("ns_removed", []))
         shell = s.get("has_shell", True)
+        s = dict(s, ast=without_user(s))
         snap = {"st": s["st"], "errored": s["errored"],
                 "disablers": [[d[0], d[1], canon_val(d[2], rn), canon_val(d[3], rn)] if d[0] == "unadvise"
                               else [d[0], d[1], rn(d[2])] for d in s["disablers"]],
@@ -341,7 +348,8 @@ def canon_impl(impl, case=None):
             esc = c.get("escaped")
             if esc is None and o is not None and c.get("error") is not None:
                 # run_cell reports an exception that left a hook as the cell's error
-                injected = {REAL_CLASS.get(f[1], f[1]) for f in o.get("faults", [])} | ({case.get("bad_exc")} if case else set()) | {"StrFailure"}
+                injected = {REAL_CLASS.get(f[1], f[1]) for f in o.get("faults", [])} | ({case.get("bad_exc")} if case else set()) | {"StrFailure"} | \
+                           ({"ValueError"} if case and case.get("stdio") == "err:closed" else set())
                 # (an injected NameError is told from the cell's own NameError by its message)
                 if c["error"] in injected and (c["error"] != "NameError" or c.get("error_injected")):
                     esc = c["error"]
